@@ -125,9 +125,6 @@ func (f *gofile) mk(t *Type, tok string, constant bool, depth int) string {
 			var parts []string
 			k := 0
 			for _, fl := range d.Fields {
-				if fl.Embedded {
-					continue
-				}
 				if fl.Name == "Tok" && fl.T.K == "basic" && fl.T.Basic == "int" {
 					parts = append(parts, "Tok: "+tok)
 					continue
@@ -312,6 +309,9 @@ func (f *gofile) itemExpr(i int) string {
 func (f *gofile) valueExpr(i int) string {
 	it := &f.r.S.Items[i]
 	if it.Expr != "" {
+		for _, p := range it.ExprImports {
+			f.use(p)
+		}
 		return it.Expr
 	}
 	t := it.Out
@@ -353,7 +353,7 @@ func (r *Renderer) ValueHome() map[int]int {
 		for _, x := range rs {
 			if x.Item >= 0 {
 				k := r.S.Items[x.Item].Kind
-				if k == "value" || k == "ivalue" {
+				if (k == "value" || k == "ivalue") && !r.S.Items[x.Item].NoRef {
 					if _, ok := home[x.Item]; !ok {
 						home[x.Item] = pkg
 					}
@@ -566,6 +566,15 @@ func (r *Renderer) Files() map[string]string {
 	}
 	if s.Extra != "" {
 		out["extra.go"] = s.Extra
+	}
+	for pi, src := range s.PkgExtra {
+		var b strings.Builder
+		fmt.Fprintf(&b, "package %s\n\n", s.Pkgs[pi].Name)
+		for _, im := range s.PkgExtraImports[pi] {
+			fmt.Fprintf(&b, "import %s\n", im)
+		}
+		b.WriteString("\n" + src)
+		out[path(pi, "extra_decls.go")] = b.String()
 	}
 	out["zz_drive.go"] = r.renderDriver(home)
 	return out
